@@ -24,3 +24,15 @@ func VerifThrottlingState(p *ResponseBasedThrottlingPlugin, now time.Time) strin
 		})
 	return d
 }
+
+// VerifRetryState renders the retry remedy's per-sequence state (attempts left, next cool-down,
+// remaining lifetime of the entry).
+//
+//go:norace
+func VerifRetryState(p *RetryPlugin, now time.Time) string {
+	d, _, _, _, _ := utils.VerifCacheDump[string, RetryState](p.cache, now,
+		func(k string, v RetryState) string {
+			return fmt.Sprintf("%s=%d/%d", k, v.attemptsLeft, v.nextCooldownSeconds)
+		})
+	return d
+}
